@@ -104,6 +104,14 @@ Definition options_of (x : input) : list key :=
   | InObject _ _ => []
   end.
 
+(* parsers with class-typed arguments: the collection phase is not modelled; an input rejected before
+   apply_parsing_links was reached (no pre-link configuration observed) is a rejection the model does not dispute *)
+Definition parse_obs (classes : list cls) (p : parser) (x : input) (pre : option val) : res val :=
+  match pre with
+  | None => if uses_linked_option p x then Err ELinked else Err EOther
+  | Some _ => parse_from fn_interp classes p x pre
+  end.
+
 Definition judge_flat (c : case) : verdict :=
   let '(p, verdicts) := if N.testbit (c_fixed c) 0 then build_fixed (c_decls c) (c_links c)
                          else build (c_decls c) (c_links c) in
@@ -113,7 +121,7 @@ Definition judge_flat (c : case) : verdict :=
   let ckeys := map d_key (filter (fun d => is_class_kind (d_kind d)) (c_decls c)) in
   let x := c_input c in
   let model_parse := if c_full c then parse fn_interp (c_classes c) p x
-                     else parse_from fn_interp (c_classes c) p x (o_pre c) in
+                     else parse_obs (c_classes c) p x (o_pre c) in
   let m_build := list_eqb N.eqb verdicts (o_build c) && same_keys (p_req p) (o_required c) in
   let m_parse := res_agrees model_parse (o_parse c) in
   let m_pre := if c_full c then
@@ -146,7 +154,7 @@ Definition judge_flat (c : case) : verdict :=
   let m_second := match c_input2 c, o_parse2 c with
                   | Some x2, Some r =>
                       res_agrees (if c_full c then parse fn_interp (c_classes c) p x2
-                                  else parse_from fn_interp (c_classes c) p x2 (o_pre2 c)) r
+                                  else parse_obs (c_classes c) p x2 (o_pre2 c)) r
                   | Some _, None => false
                   | None, _ => true
                   end in
